@@ -105,7 +105,9 @@ class _RedisConsumer(ConsumerT):
                 await asyncio.sleep(self.POLLING_WAIT)
                 continue
             key, _, params = msg
-            if params.is_overdue:
+            # only messages, which are about to be processed, can expire - a message, which is
+            # looked up in the dead (or delayed) queue, has to stay retrievable from there
+            if params.is_overdue and self.category == MessageCategory.NORMAL:
                 await self.broker.nack(key)
                 continue
             return msg
